@@ -15,6 +15,7 @@ LANELETS = {
     7: ([(100, 100), (104, 100)], [(100, 102), (104, 102)]),                 # G far away
     8: ([(10, 2), (12, 4), (14, 6)], [(9, 3), (11, 5), (13, 7)]),            # H diagonal
     9: ([(0, 0), (4, 0), (8, 0)], [(0, 2), (4, 2), (8, 2)]),                 # I exactly the geometry of A (a second lanelet overlaid on the same area)
+    10: ([(10, -7), (15, -7), (15, -2), (10, -2)], [(10, -6), (14, -6), (14, -3), (10, -3)]),   # J U-turn, 1 wide: its area centroid (12.96, -4.5) lies in the hollow
 }
 
 
